@@ -87,13 +87,24 @@ TStep ==
     /\ UNCHANGED <<waiters, woken, endSeen>>
 
 \* the next observation of the current step
+\* Flags raised one after the other inside one step are raised "in that instant": nothing in the
+\* documented semantics orders them, so a run of consecutive `raise` observations may come in any order.
+RECURSIVE RaiseRunEnd(_)
+RaiseRunEnd(i) == IF i < Len(S.out) /\ S.out[i + 1].e = "raise" THEN RaiseRunEnd(i + 1) ELSE i
+Swap(q, i, j) == [k \in DOMAIN q |-> IF k = i THEN q[j] ELSE IF k = j THEN q[i] ELSE q[k]]
+
 TConsume ==
-    LET r == Rec[l] IN
-    /\ ~OutDone
-    /\ r.t = now
-    /\ Match(r, S.out[oi + 1])
-    /\ oi' = oi + 1
-    /\ UNCHANGED <<vars, waiters, woken, endSeen>>
+    LET r == Rec[l]
+        x == S.out[oi + 1]
+    IN  /\ ~OutDone
+        /\ r.t = now
+        /\ IF x.e = "raise" /\ r.e = "raise" /\ ~Match(r, x)
+           THEN \E j \in (oi + 2)..RaiseRunEnd(oi + 1) :
+                    /\ Match(r, S.out[j])
+                    /\ S' = [S EXCEPT !.out = Swap(@, oi + 1, j)]
+           ELSE Match(r, x) /\ S' = S
+        /\ oi' = oi + 1
+        /\ UNCHANGED <<now, qU, qH, qN, closed, parked, kids, sent, cancelled, nextSn, viol, waiters, woken, endSeen>>
 
 \* a task awaiting a ticket completes
 TResolved ==
